@@ -19,7 +19,8 @@ CHECKS = {
              "against the declarative meaning of note lines (Notes.tla) on an exhaustive bounded scope, every terminal "
              "state is replayed into the real parser, and every observation of the real parser on seeded wide-domain "
              "tracks (all 32 lane combinations, flags, gaps of 1, S/E lines interleaved, ticks up to 10^8) is judged "
-             "by TLC evaluating Props!C02V.",
+             "by TLC evaluating Props!C02V. Also: sections of 3000-8000 ticks judged in windows and re-parsed at 20-64 byte alignments; 2-5 sections per chart each judged as if alone; blank and unparsable lines "
+             "around; the note list read a second time after derived attributes; a sixth of the charts built through the section-level entry points (8 kinds of Iterable[str]) and every fifth parse through from_filepath on a reused path.",
         design="5 (C02)", technique="TLA+ model checking (TLC) + spec->code replay of TLC behaviours + TLC trace validation of recorded parses"),
     "C03": dict(
         text="TLC model-checks the sustain decision table (Sustain.tla: all 4^5 lane/length patterns x open x flags; the code-shaped "
@@ -35,7 +36,8 @@ CHECKS = {
     "C05": dict(
         text="TLC model-checks the star-power cursor of the NoteTrack machine (invariants C05 and CursorSound over every arrangement of up to 3 phrases "
              "and note sets in scope), replays the terminal states into the real parser and judges seeded long tracks with up to 40 phrases by "
-             "TLC evaluating Props!C05V (half-open cover, first covering phrase).",
+             "TLC evaluating Props!C05V (half-open cover, first covering phrase). TrackBuild.tla adds the tempo map and held notes (three cursors at once; two wrong designs must fail), "
+             "every terminal state replayed; hundreds of phrases, tempo changes inside phrases, several sections per chart, a second reading after derived attributes, section-level entry points.",
         design="5 (C05)", technique="TLA+ model checking (TLC) of the cursor machine + spec->code replay + TLC trace validation"),
     "C08": dict(
         text="Every tempo value n of a swept range (all n up to 3*10^4 quick / 2*10^6 thorough plus stratified values up to 10^9), time signatures "
@@ -45,12 +47,14 @@ CHECKS = {
     "C19": dict(
         text="TLC enumerates every sequence of read-only operations (32 operation forms, length <= 2 quick / <= 3 thorough) of ChartObject.tla, whose every action leaves "
              "the abstract chart unchanged (the auto-inserting design variant is shown to violate Immutable); each sequence is replayed on a freshly parsed real chart "
-             "and after every step TLC judges the recorded full projection, twin equality both ways and renderings (Props!C19V); longer sequences are seeded.",
+             "and after every step TLC judges the recorded full projection, twin equality both ways (also with a twin that is never read) and renderings (Props!C19V); longer sequences are seeded; "
+             "the sequences also run on a chart with out-of-order lines and on charts parsed under five track selections; assignment is offered to every declared field, every public derived attribute and an unknown name of every event and track object.",
         design="5 (C19)", technique="TLA+ model checking (TLC) of operation sequences + spec->code replay with observation after each step"),
     "C20": dict(
         text="The import graph is extracted from the working tree (ast) into Imports.tla; TLC explores every client import order of the 12 modules (NoImportError, ExecOnce, "
              "SameNamesAtEnd); all 12 first imports, all 132 ordered pairs and seeded full permutations run in fresh interpreters, and TLC validates each interpreter's "
-             "module-execution trace against the model and judges success and the public-name / object-identity table.",
+             "module-execution trace against the model and judges success and the public-name / object-identity table. Modules are discovered from the tree; every module is also imported first by each statement form "
+             "(from chartparse import m / import chartparse.m / import chartparse.m as m), every ordered pair in from-form.",
         design="5 (C20)", technique="TLA+ model checking (TLC) of the extracted import graph + trace validation of real interpreter import traces"),
     "C01": dict(
         text="TLC model-checks the tempo accumulator / lookup machine TempoMap.tla (every map, tick, event order of a bounded scope) against the same exact BigNat bound "
@@ -61,7 +65,8 @@ CHECKS = {
     "C11": dict(
         text="TLC model-checks TempoMap.tla invariants C11 (every emitted event equals the un-hinted lookup; the hint is the history of earlier events, written in any order) and "
              "HintTotal (every tick x every hint); usable terminal states are replayed with all ticks x all hints 0..len+1 through the public query; seeded charts, sorted and with "
-             "sections reversed / swapped / shuffled, are judged by TLC evaluating Props!C11V (invisible hints, governing index, ValueError beyond, stored = un-hinted).",
+             "sections reversed / swapped / shuffled, are judged by TLC evaluating Props!C11V (invisible hints, governing index, ValueError beyond, stored = un-hinted). TrackBuild.tla (hints carried from phrase to phrase, note to note, "
+             "start to sustain end) is model-checked and every terminal state replayed; maps of up to 3500 (thorough 30000) tempo events.",
         design="5 (C11)", technique="TLA+ model checking (TLC) over hints and event histories + spec->code replay + TLC trace validation"),
     "C12": dict(
         text="TLC model-checks monotonicity / strictness invariants of TempoMap.tla; terminal states and seeded dense ascending sweeps around every tempo change (extreme 0.001 <-> 10^6 BPM jumps, "
@@ -119,7 +124,8 @@ CHECKS = {
     "C10": dict(
         text="TLC explores, for all 24 extracted field recognisers, Canon_f within L(impl_f) within Liberal_f and all 276 pairwise disjointness products for strings of every length; witnesses are replayed. All 24 singletons, ordered pairs (200 seeded / all 552), "
              "each field absent in turn, permutations of 5 fields, seeded subsets / permutations of all 24 with values containing quotes, '=', other fields' names, inner blanks and non-ASCII, and all values of <= 2 symbols are parsed for real; "
-             "TLC decodes every field from its own line (Lines!DecodeField), applies the documented defaults and judges all 24 observed values and MissingRequiredField (Props!C10V).",
+             "TLC decodes every field from its own line (Lines!DecodeField), applies the documented defaults and judges all 24 observed values and MissingRequiredField (Props!C10V). "
+             "Values also carry ~65 special code points and seeded ones from the whole code space and keyword-like words; a quarter of the bodies go to Metadata.from_chart_lines directly as each of 9 kinds of Iterable[str].",
         design="5 (C10)", technique="TLC product-automaton model checking of 24 extracted recognisers + witness replay + TLC trace validation with in-spec field decoding"),
 }
 
